@@ -1,6 +1,9 @@
 /-
   `ProofPositions`, step 3 (continued): the paths of the targets, the invariant of the row
   loop, and the comparison with `Spec.Forest.proofPositions` / `Spec.Forest.computable`.
+  The invariant needs the targets to be nodes of the forest and strictly sorted (`PPHyp0`) —
+  NOT that no target is an ancestor of another: the per-row `slices.Compact` removes the
+  parent that duplicates an explicit ancestor target.
 -/
 import UtreexoVerif.Proofs.ProofPosSpec
 
@@ -90,12 +93,20 @@ theorem mem_pathUp {n R : Nat} : ∀ (d r o fuel : Nat), BelowRoot n r o R → r
 
 /-! ### the targets and their paths -/
 
+/-- hypotheses on the target list for the general theorem (`proofPositions_spec_all`): nodes of
+the forest, strictly sorted.  NO antichain hypothesis: a target may be an ancestor of another. -/
+structure PPHyp0 (n : Nat) (Tg : List Pos) : Prop where
+  inForest : ∀ t ∈ Tg, ∃ R, BelowRoot n t.1 t.2 R
+  sorted : SSorted Tg
+
 /-- hypotheses on the target list: nodes of the forest, strictly sorted, and no target is an
 ancestor of another target -/
 structure PPHyp (n : Nat) (Tg : List Pos) : Prop where
   inForest : ∀ t ∈ Tg, ∃ R, BelowRoot n t.1 t.2 R
   sorted : SSorted Tg
   anti : ∀ a ∈ Tg, ∀ b ∈ Tg, Anc a b → a = b
+
+theorem PPHyp.toHyp0 {n : Nat} {Tg : List Pos} (h : PPHyp n Tg) : PPHyp0 n Tg := ⟨h.inForest, h.sorted⟩
 
 /-- `p` lies on the path from some target up to the root of its tree -/
 def InP (n : Nat) (Tg : List Pos) (p : Pos) : Prop :=
@@ -116,9 +127,11 @@ theorem InP.belowRoot {p : Pos} (h : InP n Tg p) : ∃ R, BelowRoot n p.1 p.2 R 
   obtain ⟨t, _, R, hb, ha, hp⟩ := h
   exact ⟨R, belowRoot_anc hb ha hp⟩
 
-theorem InP.self (hyp : PPHyp n Tg) {t : Pos} (ht : t ∈ Tg) : InP n Tg t := by
+theorem InP.self0 (hyp : PPHyp0 n Tg) {t : Pos} (ht : t ∈ Tg) : InP n Tg t := by
   obtain ⟨R, hb⟩ := hyp.inForest t ht
   exact ⟨t, ht, R, hb, Anc.refl t, hb.1⟩
+
+theorem InP.self (hyp : PPHyp n Tg) {t : Pos} (ht : t ∈ Tg) : InP n Tg t := InP.self0 hyp.toHyp0 ht
 
 theorem InP.parent {x : Pos} (h : InP n Tg x) (hroot : isRootPos n x = false) :
     InP n Tg (Spec.parent x) := by
@@ -188,10 +201,12 @@ theorem ssorted_split (k : Nat) {Hi : List Pos} (h : SSorted Hi) :
 
 /-! ### the loop invariant -/
 
-/-- state of the row loop before row `ρ` -/
+/-- state of the row loop before row `ρ`: the target list is strictly sorted (it has just been
+sorted and compacted); its entries on row `ρ` are exactly the path nodes of that row, its
+entries above are the targets not yet reached -/
 structure PPInv (n : Nat) (Tg : List Pos) (ρ : Nat) (s : List Pos × List Pos × List Pos) : Prop where
-  split : ∃ Lo Hi, s.1 = Lo ++ Hi ∧ (∀ a ∈ Lo, a.1 < ρ) ∧ SSorted Hi ∧
-      (∀ p, p ∈ Hi ↔ ((p.1 = ρ ∧ InP n Tg p) ∨ (ρ < p.1 ∧ p ∈ Tg)))
+  tg_sorted : SSorted s.1
+  tg_mem : ∀ p, ρ ≤ p.1 → (p ∈ s.1 ↔ ((p.1 = ρ ∧ InP n Tg p) ∨ (ρ < p.1 ∧ p ∈ Tg)))
   nx_sorted : SSorted s.2.1
   nx_mem : ∀ q, q ∈ s.2.1 ↔ q.1 ≤ ρ ∧ IsComp n Tg q
   pf_sorted : SSorted s.2.2
@@ -201,14 +216,14 @@ theorem ssorted_append {A B : List Pos} (hA : SSorted A) (hB : SSorted B)
     (h : ∀ a ∈ A, ∀ b ∈ B, a.1 < b.1) : SSorted (A ++ B) :=
   List.pairwise_append.2 ⟨hA, hB, fun a ha b hb => PLt_iff.2 (Or.inl (h a ha b hb))⟩
 
-theorem PPInv.init {n : Nat} {Tg : List Pos} (hyp : PPHyp n Tg) : PPInv n Tg 0 (Tg, [], []) where
-  split := by
-    refine ⟨[], Tg, rfl, by simp, hyp.sorted, ?_⟩
-    intro p
+theorem PPInv.init {n : Nat} {Tg : List Pos} (hyp : PPHyp0 n Tg) : PPInv n Tg 0 (Tg, [], []) where
+  tg_sorted := hyp.sorted
+  tg_mem := by
+    intro p _
     constructor
     · intro hp
       by_cases h0 : p.1 = 0
-      · exact Or.inl ⟨h0, InP.self hyp hp⟩
+      · exact Or.inl ⟨h0, InP.self0 hyp hp⟩
       · exact Or.inr ⟨by omega, hp⟩
     · rintro (⟨h0, hin⟩ | ⟨_, hp⟩)
       · exact hin.row_zero h0
@@ -224,11 +239,29 @@ theorem PPInv.init {n : Nat} {Tg : List Pos} (hyp : PPHyp n Tg) : PPInv n Tg 0 (
   pf_mem := by intro q; simp
 
 theorem PPInv.step {n : Nat} {Tg : List Pos} {ρ : Nat} {s : List Pos × List Pos × List Pos}
-    (hyp : PPHyp n Tg) (inv : PPInv n Tg ρ s) :
+    (hyp : PPHyp0 n Tg) (inv : PPInv n Tg ρ s) :
     PPInv n Tg (ρ + 1)
-      (sortPos (scanPos n ρ s.1).1, s.2.1 ++ (scanPos n ρ s.1).2.1,
+      (compactPos (sortPos (scanPos n ρ s.1).1), s.2.1 ++ (scanPos n ρ s.1).2.1,
         s.2.2 ++ (scanPos n ρ s.1).2.2) := by
-  obtain ⟨Lo, Hi, hs, hLo, hHi, hmem⟩ := inv.split
+  -- the processed rows, and the rest
+  have hs := ssorted_split ρ inv.tg_sorted
+  generalize hLoD : s.1.filter (fun p => decide (p.1 < ρ)) = Lo at hs
+  generalize hHiD : s.1.filter (fun p => !decide (p.1 < ρ)) = Hi at hs
+  have hLo : ∀ a ∈ Lo, a.1 < ρ := by
+    intro a ha
+    rw [← hLoD, List.mem_filter] at ha
+    simpa using ha.2
+  have hHi : SSorted Hi := by rw [← hHiD]; exact List.Pairwise.filter _ inv.tg_sorted
+  have hmem : ∀ p, p ∈ Hi ↔ ((p.1 = ρ ∧ InP n Tg p) ∨ (ρ < p.1 ∧ p ∈ Tg)) := by
+    intro p
+    rw [← hHiD, List.mem_filter]
+    simp only [Bool.not_eq_true', decide_eq_false_iff_not]
+    constructor
+    · rintro ⟨h1, h2⟩
+      exact (inv.tg_mem p (by omega)).1 h1
+    · intro h
+      have hle : ρ ≤ p.1 := by rcases h with h | h <;> omega
+      exact ⟨(inv.tg_mem p hle).2 h, by omega⟩
   -- the nodes of row ρ and the targets above
   have hsplit := ssorted_split (ρ + 1) hHi
   generalize hF : Hi.filter (fun p => decide (p.1 < ρ + 1)) = Front at hsplit
@@ -252,7 +285,6 @@ theorem PPInv.step {n : Nat} {Tg : List Pos} {ρ : Nat} {s : List Pos × List Po
       · exact h
     · rintro ⟨h1, h2⟩; exact ⟨Or.inr ⟨h1, h2⟩, by omega⟩
   have hFs : SSorted Front := by rw [← hF]; exact List.Pairwise.filter _ hHi
-  have hUs : SSorted Fut := by rw [← hU]; exact List.Pairwise.filter _ hHi
   have hFrow : OnRow ρ Front := fun p hp => ((hFmem p).1 hp).1
   have hFsc : SibClosed n Front := fun t ht hr _ => ((hFmem t).1 ht).2.sib_not_root hr
   -- the scan
@@ -290,48 +322,30 @@ theorem PPInv.step {n : Nat} {Tg : List Pos} {ρ : Nat} {s : List Pos × List Po
       refine ⟨x, (hFmem x).2 ⟨h1, h2⟩, hr, rfl, ?_⟩
       intro hc
       exact hnot ((hFmem _).1 hc).2
-  refine ⟨?_, ?_, ?_, ?_, ?_⟩
+  -- of the scanned row's new entries only the parents lie above the row
+  have hNew : ∀ p, ρ + 1 ≤ p.1 → (p ∈ (scanPos n ρ Front).1 ↔ p ∈ (scanPos n ρ Front).2.1) := by
+    intro p hp
+    rw [← hfil, List.mem_filter]
+    simp only [Bool.not_eq_true', decide_eq_false_iff_not]
+    constructor
+    · intro h; exact ⟨h, by omega⟩
+    · exact fun h => h.1
+  refine ⟨compact_sortPos_ssorted _, ?_, ?_, ?_, ?_, ?_⟩
   · -- the new target list
-    refine ⟨sortPos ((Lo ++ ((scanPos n ρ Front).1 ++ Fut)).filter (fun p => decide (p.1 < ρ + 1))),
-      sortPos ((scanPos n ρ Front).2.1 ++ Fut), ?_, ?_, ?_, ?_⟩
-    · show sortPos (Lo ++ ((scanPos n ρ Front).1 ++ Fut)) = _
-      have e1 : Lo.filter (fun p => !decide (p.1 < ρ + 1)) = [] := by
-        rw [List.filter_eq_nil_iff]
-        intro a ha
-        have := hLo a ha
-        simp; omega
-      have e2 : Fut.filter (fun p => !decide (p.1 < ρ + 1)) = Fut := by
-        rw [List.filter_eq_self]
-        intro a ha
-        have := ((hUmem a).1 ha).1
-        simp; omega
-      have ehigh : (Lo ++ ((scanPos n ρ Front).1 ++ Fut)).filter (fun p => !decide (p.1 < ρ + 1)) =
-          (scanPos n ρ Front).2.1 ++ Fut := by
-        rw [List.filter_append, List.filter_append, hfil, e1, e2, List.nil_append]
-      rw [sortPos_split (ρ + 1), ehigh]
-    · intro a ha
-      rw [mem_sortPos, List.mem_filter] at ha
-      simpa using ha.2
-    · apply sortPos_ssorted
-      rw [List.nodup_append]
-      refine ⟨hPs.nodup, hUs.nodup, ?_⟩
-      intro a ha b hb e
-      subst e
-      obtain ⟨_, x, hx, _, rfl⟩ := (hPmem a).1 ha
-      exact hx.parent_notin hyp ((hUmem _).1 hb).2
-    · intro p
-      rw [mem_sortPos, List.mem_append, hPmem, hUmem]
-      constructor
-      · rintro (⟨h1, x, hx, hr, rfl⟩ | ⟨h1, h2⟩)
-        · exact Or.inl ⟨h1, hx.parent hr⟩
-        · by_cases e : p.1 = ρ + 1
-          · exact Or.inl ⟨e, InP.self hyp h2⟩
-          · exact Or.inr ⟨by omega, h2⟩
-      · rintro (⟨h1, h2⟩ | ⟨h1, h2⟩)
-        · rcases h2.row_succ h1 with h3 | ⟨x, hx1, hx2, hx3, hx4⟩
-          · exact Or.inr ⟨by omega, h3⟩
-          · exact Or.inl ⟨h1, x, hx2, hx3, hx4⟩
+    intro p hp
+    rw [mem_compact_sortPos, List.mem_append, List.mem_append, hNew p hp, hPmem, hUmem]
+    constructor
+    · rintro (h0 | ⟨h1, x, hx, hr, rfl⟩ | ⟨h1, h2⟩)
+      · have := hLo p h0; omega
+      · exact Or.inl ⟨h1, hx.parent hr⟩
+      · by_cases e : p.1 = ρ + 1
+        · exact Or.inl ⟨e, InP.self0 hyp h2⟩
         · exact Or.inr ⟨by omega, h2⟩
+    · rintro (⟨h1, h2⟩ | ⟨h1, h2⟩)
+      · rcases h2.row_succ h1 with h3 | ⟨x, hx1, hx2, hx3, hx4⟩
+        · exact Or.inr (Or.inr ⟨by omega, h3⟩)
+        · exact Or.inr (Or.inl ⟨h1, x, hx2, hx3, hx4⟩)
+      · exact Or.inr (Or.inr ⟨by omega, h2⟩)
   · apply ssorted_append inv.nx_sorted hPs
     intro a ha b hb
     have := ((inv.nx_mem a).1 ha).1
